@@ -108,9 +108,11 @@ def concretise(doc, rnd, workdir):
             mh.file_size = rnd.choice(SIZES)
             ents = []
             for f in r["fmts"]:
-                e = MHLHashEntry(f, digest_text(f, rnd), rnd.choice(ACTIONS), hash_date=datetime.datetime(2021, 3, 4, 10, 0, 1, 250000))
+                # every entry has its own hash date (formats are added in different runs)
+                hdate = datetime.datetime(2021, 3, 4, 10, 0, 1, 250000) + datetime.timedelta(days=len(exp["files"]), seconds=7 * len(ents), microseconds=1000 * len(ents))
+                e = MHLHashEntry(f, digest_text(f, rnd), rnd.choice(ACTIONS), hash_date=hdate)
                 mh.append_hash_entry(e)
-                ents.append({"f": f, "d": e.hash_string, "a": e.action})
+                ents.append({"f": f, "d": e.hash_string, "a": e.action, "hd": hdate.isoformat()})
             exp["files"].append({"path": p, "size": mh.file_size, "ents": ents, "prev": prev})
         else:
             mh.is_directory = True
@@ -152,15 +154,22 @@ def compare_tool(parsed, exp):
     chk("patterns", parsed.process_info.ignore_spec.get_pattern_list(), exp["pats"])
     files = [m for m in parsed.media_hashes if not m.is_directory]
     dirs = [m for m in parsed.media_hashes if m.is_directory]
-    chk("files", [{"path": m.path, "size": m.file_size, "ents": [{"f": e.hash_format, "d": e.hash_string, "a": e.action} for e in m.hash_entries], "prev": m.previous_path} for m in files], exp["files"])
+    chk("files", [{"path": m.path, "size": m.file_size, "ents": [{"f": e.hash_format, "d": e.hash_string, "a": e.action, "hd": e.hash_date.replace(tzinfo=None).isoformat() if e.hash_date else None} for e in m.hash_entries], "prev": m.previous_path} for m in files], exp["files"])
     chk("dirs", [{"path": m.path, "ents": [{"f": e.hash_format, "c": e.hash_string, "s": e.structure_hash_string} for e in m.hash_entries], "prev": m.previous_path} for m in dirs], exp["dirs"])
     rm = parsed.process_info.root_media_hash
     chk("root", None if rm is None or not rm.hash_entries else [{"f": e.hash_format, "c": e.hash_string, "s": e.structure_hash_string} for e in rm.hash_entries], exp["root"])
     chk("refs", [{"path": r.path, "c4": r.reference_hash} for r in parsed.hash_list_references], exp["refs"])
-    hd = [e.hash_date for m in files for e in m.hash_entries]
-    if any(d is None or d.replace(tzinfo=None) != datetime.datetime(2021, 3, 4, 10, 0, 1, 250000) for d in hd):
-        bad.append("hashdate: %r" % hd[:2])
     return bad
+
+
+def _naive_utc(text):
+    """the instant a written hashdate denotes, as naive UTC ISO text (the harness runs with TZ=UTC)"""
+    if not text:
+        return None
+    d = datetime.datetime.fromisoformat(text)
+    if d.tzinfo is not None:
+        d = d.astimezone(datetime.timezone.utc).replace(tzinfo=None)
+    return d.isoformat()
 
 
 def compare_indep(m, exp):
@@ -177,7 +186,7 @@ def compare_indep(m, exp):
     chk("authors", cr.get("authors"), exp["authors"])
     chk("process", m["proc"], exp["proc"])
     chk("patterns", m["pats"], exp["pats"])
-    chk("files", [{"path": r["path"], "size": int(r["size"]) if r["size"] is not None else None, "ents": [{"f": e["f"], "d": e["d"], "a": e["a"]} for e in r["ents"]], "prev": r["prev"]} for r in m["files"]], exp["files"])
+    chk("files", [{"path": r["path"], "size": int(r["size"]) if r["size"] is not None else None, "ents": [{"f": e["f"], "d": e["d"], "a": e["a"], "hd": _naive_utc(e.get("hashdate"))} for e in r["ents"]], "prev": r["prev"]} for r in m["files"]], exp["files"])
     chk("dirs", [{"path": r["path"], "ents": [{"f": c["f"], "c": c["d"], "s": s["d"]} for c, s in zip(r["content"], r["structure"])], "prev": r["prev"]} for r in m["dirs"]], exp["dirs"])
     chk("root", None if m["root"] is None else [{"f": c["f"], "c": c["d"], "s": s["d"]} for c, s in zip(m["root"]["content"], m["root"]["structure"])], exp["root"])
     chk("refs", m["refs"], exp["refs"])
@@ -226,7 +235,7 @@ def run_case(args):
                 if t == "hash":
                     recs.append({"kind": "file", "fmts": [e.tag.split("}", 1)[-1] for e in ch if e.tag.split("}", 1)[-1] in oracle.FORMATS], "prev": ch.find(PJ.NS + "previousPath") is not None})
                 else:
-                    recs.append({"kind": "dir", "fmts": [e.tag.split("}", 1)[-1] for e in ch.find(PJ.NS + "content")], "prev": ch.find(PJ.NS + "previousPath") is not None})
+                    recs.append({"kind": "dir", "fmts": [e.tag.split("}", 1)[-1] for e in (ch.find(PJ.NS + "content") if ch.find(PJ.NS + "content") is not None else [])], "prev": ch.find(PJ.NS + "previousPath") is not None})
             read = {"authors": len(m["creator"].get("authors", [])), "location": "location" in m["creator"], "comment": "comment" in m["creator"],
                     "root": [e["f"] for e in m["root"]["content"]] if m["root"] else [], "npats": len(m["pats"]), "recs": recs, "nrefs": len(m["refs"])}
         else:
